@@ -46,6 +46,9 @@ func Parse(s string) (rule.Rule, error) {
 	if err := ruleFlagSet.flagSet.Parse(args); err != nil {
 		return nil, err
 	}
+	if extra := ruleFlagSet.flagSet.Args(); len(extra) > 0 {
+		return nil, fmt.Errorf("unexpected arguments: %q", extra)
+	}
 	if err := ruleFlagSet.validate(); err != nil {
 		return nil, err
 	}
@@ -223,7 +226,7 @@ func (l filterList) String() string {
 
 type interFieldFilter rule.FilterSpec
 
-var comparisonRegexp = regexp.MustCompile(`(\w+)\s*(!?=)(\w+)`)
+var comparisonRegexp = regexp.MustCompile(`^(\w+)\s*(!?=)(\w+)$`)
 
 func (f *interFieldFilter) Set(value string) error {
 	values := comparisonRegexp.FindStringSubmatch(value)
@@ -242,7 +245,7 @@ func (f *interFieldFilter) Set(value string) error {
 
 type valueFilter rule.FilterSpec
 
-var filterRegexp = regexp.MustCompile(`(\w+)\s*(<=|>=|&=|=|!=|<|>|&)(\S+)`)
+var filterRegexp = regexp.MustCompile(`^(\w+)\s*(<=|>=|&=|=|!=|<|>|&)(.+)$`)
 
 func (f *valueFilter) Set(value string) error {
 	values := filterRegexp.FindStringSubmatch(value)
